@@ -823,13 +823,17 @@ void flexinit (int argc, char **argv)
 			break;
 
 		    case OPT_FULL:
+			/* -f is -Cfr: a later -C option adds to it */
 			ctrl.useecs = ctrl.usemecs = false;
 			ctrl.use_read = ctrl.fulltbl = true;
+			sawcmpflag = true;
 			break;
 
 		    case OPT_FAST:
+			/* -F is -CFr */
 			ctrl.useecs = ctrl.usemecs = false;
 			ctrl.use_read = ctrl.fullspd = true;
+			sawcmpflag = true;
 			break;
 
 		    case OPT_HELP:
